@@ -1,0 +1,11 @@
+//go:build verif
+
+package consensus
+
+import "github.com/vechain/thor/v2/thor"
+
+// VerifCachedEntry returns the validators-cache entry stored for a block id without touching its recency:
+// a *scheduler.Candidates under PoA, a []validation.Leader under PoS. Used by the verification harness (/verif, C01).
+func (c *Consensus) VerifCachedEntry(id thor.Bytes32) (any, bool) {
+	return c.validatorsCache.Peek(id)
+}
